@@ -463,20 +463,13 @@ std::unique_ptr<gsl_matrix_complex,void (*)(gsl_matrix_complex*)>>
 SU_vector::GetEigenSystem(bool order) const{
   gsl_vector * eigenvalues = gsl_vector_alloc(dim);
   gsl_matrix_complex * eigenvectors = gsl_matrix_complex_alloc(dim,dim);
-#define SQ(x) ((x)*(x))
-  switch (dim) {
-    case 3:
-          {
-#include <SQuIDS/SU_inc/EigenSystemSU3.txt>
-          }
-          break;
-    default:
-      auto matrix=(*this).GetGSLMatrix();
-      gsl_eigen_hermv_workspace * ws = gsl_eigen_hermv_alloc(dim);
-      gsl_eigen_hermv(matrix.get(),eigenvalues,eigenvectors,ws);
-      gsl_eigen_hermv_free(ws);
-  }
-#undef SQ
+  //All dimensions use the Hermitian eigensolver: the closed-form solution formerly used
+  //for dimension 3 divides by quantities which vanish for diagonal, degenerate or sparse
+  //matrices (projectors, the identity, single generators), producing NaNs.
+  auto matrix=(*this).GetGSLMatrix();
+  gsl_eigen_hermv_workspace * ws = gsl_eigen_hermv_alloc(dim);
+  gsl_eigen_hermv(matrix.get(),eigenvalues,eigenvectors,ws);
+  gsl_eigen_hermv_free(ws);
   // sorting eigenvalues
   if (order)
     gsl_eigen_hermv_sort(eigenvalues,eigenvectors,GSL_EIGEN_SORT_VAL_ASC);
